@@ -343,8 +343,10 @@ impl<F: Write + Seek> Directory<F> {
         let left_sibling = self.dir_entry(stream_id).left_sibling;
         let right_sibling = self.dir_entry(stream_id).right_sibling;
         let replacement_id = if left_sibling == consts::NO_STREAM {
+            self.blacken_dir_entry(right_sibling)?;
             right_sibling
         } else if right_sibling == consts::NO_STREAM {
+            self.blacken_dir_entry(left_sibling)?;
             left_sibling
         } else {
             // The entry has two children, so its in-order predecessor takes
@@ -374,12 +376,13 @@ impl<F: Write + Seek> Directory<F> {
                 predecessor.left_sibling = left_sibling;
             }
             predecessor.right_sibling = right_sibling;
-            predecessor.color = self.dir_entry(stream_id).color;
+            predecessor.color = Color::Black;
             predecessor.write_to(&mut self.seek_to_dir_entry(predecessor_id)?)?;
             if detached {
                 let mut sector =
                     self.seek_within_dir_entry(predecessor_parent_id, 72)?;
                 sector.write_le_u32(predecessor_left)?;
+                self.blacken_dir_entry(predecessor_left)?;
                 self.dir_entry_mut(predecessor_parent_id).right_sibling =
                     predecessor_left;
             }
@@ -411,6 +414,21 @@ impl<F: Write + Seek> Directory<F> {
             sector.write_le_u32(replacement_id)?;
         }
         self.free_dir_entry(stream_id)?;
+        Ok(())
+    }
+
+    /// Colors an entry that moves up in its sibling tree black.  We don't keep
+    /// the tree balanced, but files from other writers do have red nodes, and
+    /// moving one of those up under a red parent (or to the root) would break
+    /// the rule that a red node has no red child.
+    fn blacken_dir_entry(&mut self, stream_id: u32) -> io::Result<()> {
+        if stream_id != consts::NO_STREAM
+            && self.dir_entry(stream_id).color == Color::Red
+        {
+            self.dir_entry_mut(stream_id).color = Color::Black;
+            let mut sector = self.seek_within_dir_entry(stream_id, 67)?;
+            sector.write_all(&[Color::Black.as_byte()])?;
+        }
         Ok(())
     }
 
